@@ -473,3 +473,14 @@ Theorem lincomb_executed_model_is_rational_restriction :
        (lincomb_impl_sz castr floating blas_dtype flags size (Q2R a) x1 (Q2R b) x2 out sr).
 Proof. exact lincomb_impl_transfer. Qed.
 Print Assumptions lincomb_executed_model_is_rational_restriction.
+
+(* the same for the space level: arbitrarily nested product spaces and EVERY regenerated operator
+   program (x + y, x -= c, c / x, ...; [l] ranges over all programs) -- division is total on both
+   sides, so no side condition *)
+Theorem operator_programs_executed_model_is_rational_restriction :
+  forall (flg : nat -> bool * bool) (bdtf : nat -> bool) (icq : Q -> Q) (icr : R -> R),
+  (forall q, Q2R (icq q) = icr (Q2R q)) ->
+  forall (sp : space) (l : list wstmt) (self other : elem) (c : Q) (tmp : elem) (sq : store Q) (sr : store R),
+  sim sq sr ->
+  osim (run_w flg bdtf icq sp l self other c tmp sq) (run_w flg bdtf icr sp l self other (Q2R c) tmp sr).
+Proof. exact run_w_transfer. Qed.
